@@ -59,6 +59,7 @@ class Opts:
         self.backward_ann = False  # main thread carries '## backward ##' annotations (not nested in each other)
         self.force_second_thread = False
         self.first_op_children = False  # the first file entry may enclose other calls
+        self.random_pad = True  # one case in eight gets 130-140 metadata entries after the first entry (file positions > 127)
         self.pad_entries = 0  # number of metadata entries inserted right after the first entry (pushes file positions up)
         self.corr_base = None  # None: 1000 * (rank + 1); otherwise correlation ids count up from this base (small ids -> narrow dtypes)
         self.extra_names = 0  # number of extra leaf operators with unique names appended to the main thread (large vocabulary)
@@ -416,11 +417,14 @@ def sim_case(draw, o: Optional[Opts] = None, max_ranks: int = 2, same_steps: boo
     nsteps = pick(draw, o.steps)
     first_step = pick(draw, [0, 3, 100])
     ranks = []
+    pad_case = o.random_pad and o.pad_entries == 0 and pick(draw, [False] * 7 + [True])
     for r in range(nranks):
         o_r = o
+        if pad_case:
+            o_r = Opts(**{**o.__dict__, "pad_entries": pick(draw, [130, 140])})
         if o.rank_vocab:
             ops_r, kern_r = o.rank_vocab[r % len(o.rank_vocab)]
-            o_r = Opts(**{**o.__dict__, "op_names": ops_r, "kernel_names": kern_r})
+            o_r = Opts(**{**o_r.__dict__, "op_names": ops_r, "kernel_names": kern_r})
         prog = draw(rank_program(o_r, r, nsteps, first_step))
         sim = simulate_rank(prog, epoch)
         events = draw(merge_order(sim))
